@@ -12,32 +12,55 @@ tests, conditional expressions, renamed locals, hoisted constants and extracted 
 Whatever the walker does not model makes the obligation *undecided*.  No input data is made up anywhere: there are no
 sample byte strings, programs, lengths or token streams, and nothing of /repo is imported or executed.
 
+Grammar rules are never looked up by their own name when that name cannot reach a parse tree (lark names a node after the
+alias of the alternative, so `?value`, `http_get_client_options`, `postex_options`, `execute_options` ... can be renamed
+freely): a rule is addressed by the path of block aliases that leads to it from the start symbol (`BUILDER_PATHS`: builder
+class -> alias paths, `_body_of`) or, for the two parts of a data transform, through the un-aliased rules `steps` /
+`termination` / `data_transform`, whose names are the tree names DataTransformBlock.tree builds (section "grammar
+lookups").  A rule that cannot be reached that way makes the obligation undecided.
+
 Technique (numbers: ALLOWED devices of RULES_GUIDE.md, "What counts as static here")
   walker  2 (both outcomes of unknown tests; outcome of a symbolic value kept along a path), 3 (terms by substituting
           definitions, argument binding into package callees, loop bodies analysed once with a symbolic item), 4 (nullness
-          and type-tag facts of symbols: `_Val` is not None / is a bytes, str or int value; container-kind facts), 5
+          and type-tag facts of symbols: `_Val` is not None / is a bytes, str or int value; container-kind facts; length
+          facts of a symbolic sequence: `_Len`, an integer >= the number of entries of the case, compared with constants by
+          its lower bound only - and the one exact case, the empty sequence, of length 0 and equal to `[]`), 5
           (specialisation per vocabulary member), 6 (constant folding of expressions whose operands are all constants of the
-          code).  Text lemmas S1-S6 (substring / first occurrence / equality refutation / slicing / case mapping /
+          code; a module-level table that is filled by further module-level statements - `T.update(..)`, `T[k] = v`, a loop
+          over constants - is folded by following those statements in order).  Text lemmas S1-S6 (substring / first occurrence / equality refutation / slicing / case mapping /
           prefix-suffix of a concatenation with constant segments) are stated at `_Str`.
   R1   1 (call sites, resolved receiver classes, class-level aliases), 3 (constant names through temporaries), 5 (settings
-       loop per BeaconSetting member, value symbolic), 6 (compiled grammar: alias / arity / OPTION terminal; opcode tables).
+       loop per BeaconSetting member, value symbolic), 6 (compiled grammar: alias / arity / OPTION terminal, rules reached
+       through block-alias paths; opcode tables).
   R2   1 (constants the producer emits, cstruct field names), 5 (consumer loop per label / field name), 3 (the emitted
        builder call as a term), 6 (grammar alias and keyword).
   R3   5 (producer per InjectExecutor member, input symbolic; consumer per produced entry), 3 (the entry of an executor
        with an argument is a text term, lemmas S1-S4 and S6 decide `" " in`, partition, slicing, membership), 6 (grammar
        alias / keyword / arity; reference spelling table), sibling agreement as equality of the builder-call terms.
-  R4   5 (per valued opcode / transform key, byte argument symbolic), 3 (the term that reaches the step / set_option is
-       classified structurally).  Lemmas: E1 `repr(b)[2:-1]` is an escape-encoding of b; E2 `b.decode(codec)` /
-       `str(b, codec)` is not.  Any other function of the argument: undecided.
+  R4   5 (per valued opcode / transform key / pivot frame-header setting, byte argument symbolic), 3 (the term that reaches
+       the step / set_option is classified structurally), 6 (E3 reads one entry of a constant table of the code).  Lemmas:
+       E1 `repr(b)[2:-1]` is an escape-encoding of b; E2 `b.decode(codec)` / `str(b, codec)` is not; E3 a decoding followed
+       by character-wise operations with constant operands (`.translate(T)`, `.replace(a, b)` with a one-character a) turns
+       a backslash byte into T[92] / b / itself - it is not an escape-encoding unless that image is a spelling the STRING
+       token decoder reads back as one backslash (str.translate looks up *integer* ordinals only).  A chain whose
+       backslash image is such a spelling, and any other function of the argument: undecided.
   R5   5 (per opcode name, build selector, transform key, DNS setting), 3 (builder calls as terms compared with the reading
-       of the opcode tables; sibling settings compared by structural equality of the terms), 4 (container kind: lemma K, a
-       dict / set keeps one line per name).
-  R6   1, 2 (CFG dominance of the attachment by a non-emptiness condition), 3 (values the child is fed from).
+       of the opcode tables; sibling settings compared by structural equality of the terms - when they differ only in the
+       function that encodes the argument the comparison is undecided, each encoding being R4's), 4 (container kind: lemma
+       K, a dict / set keeps one line per name).
+  R6   1, 2 (CFG dominance of the attachment by a non-emptiness condition: truthiness or a spelled-out `len(x) > 0` /
+       `x != []` form), 3 (values the child is fed from).  That an attached data transform has statements is R10's.
   R7   imported: C03.R6 (rules/c03.py) - its devices are declared there.
   R8   4 (nullness case analysis of the argument: None / not None, nothing else known), 3 (the appended Tree term and its
        child list), sibling agreement as equality of the terms.
   R9   5 (per lower-cased opcode name of the transform / recover tables, argument symbolic), 3 (the tree term of the
        block), 6 (grammar alias and arity).
+  R10  4 (emptiness case analysis: for each sequence-valued setting the case "no entries" - length 0, falsy, equal to `[]`;
+       the rest of the configuration symbolic), 2 + 3 (the walker's paths; which builder objects reach the returned
+       profile is read off the attach calls and block-valued constructor keywords as terms, `set_non_empty_config_block`
+       by the summary of the primitives), 6 (grammar fact: `data_transform` is not nullable - least fixpoint over the
+       compiled rules - so a data-transform block without statements has no text).  Obligations: generation does not
+       raise; no child-less block and no statement-less data transform is emitted.
 """
 
 from __future__ import annotations
@@ -52,9 +75,9 @@ from csverif import tables
 from csverif.astutil import body_walk, const_eval, dotted, fn_calls, kwarg, NotConst, param_defaults, params, src, statements
 from csverif.grammar import Grammar
 from csverif.q import FuncView, dominating_conditions, inline
-from rules.c11 import BUILDER_RULES, HELPER_FIXED_NAME, aliases_of, block_aliases_of
 
 HELPER_ARITY = {"set_option": 1, "_enable": 0, "_pair": 2}
+HELPER_FIXED_NAME = {"_header": "header", "_parameter": "parameter"}  # pair primitives that emit a fixed tree name
 ATTACH = {"set_config_block", "set_non_empty_config_block"}
 # builder primitives (methods of ConfigBlock / C2Profile that put one tree node into a block) -> number of strings
 PRIM_ARITY = {"set_option": 1, "_enable": 0, "_pair": 2, "_header": 2, "_parameter": 2}
@@ -117,11 +140,22 @@ class _Val(_Op):
 class _Seq(_Op):
     """A symbolic sequence under a case analysis: the entries considered are `items` (vocabulary members with symbolic
     arguments).  Iterating it gives those entries and it is non-empty iff it has entries; its length, its indexing and
-    its equality with other values are unknown."""
+    its equality with other values are unknown.  `exact` marks the one case in which more is known: the sequence under
+    consideration is exactly the entries given (used for the empty sequence: it has length 0)."""
 
-    def __init__(self, items, tag="entries"):
+    def __init__(self, items, tag="entries", exact=False):
         _Op.__init__(self, tag)
         self.items = list(items)
+        self.exact = exact
+
+
+class _Len(_Op):
+    """The length of a symbolic sequence: an integer >= `lo` (the entries the case analysis put into the sequence); nothing
+    else is known about it.  Interval fact (device 4); comparisons with constants are decided by the lower bound only."""
+
+    def __init__(self, lo: int):
+        _Op.__init__(self, f"length >= {lo}")
+        self.lo = lo
 
 
 class _Str(_Op):
@@ -367,6 +401,8 @@ _IBINOPS = {ast.Add: operator.iadd, ast.Sub: operator.isub, ast.BitOr: operator.
 _CMPOPS = {ast.Lt: operator.lt, ast.LtE: operator.le, ast.Gt: operator.gt, ast.GtE: operator.ge}
 _KIND_TYPES = {"bytes": bytes, "str": str, "int": int}
 _KIND_COMPARABLE = {"bytes": (bytes, bytearray), "str": (str,), "int": (int, float, complex)}
+_MUTATORS = {"update", "setdefault", "pop", "popitem", "clear", "append", "extend", "insert", "remove", "add", "discard", "sort", "reverse",
+             "__setitem__", "__delitem__", "difference_update", "intersection_update", "symmetric_difference_update", "appendleft", "extendleft"}
 _STEP_LIMIT = 100000
 _PATH_LIMIT = 96
 _DEPTH_LIMIT = 5
@@ -517,10 +553,22 @@ class _Interp:
         if name in self.mod.consts and name not in self._glob_busy:
             self._glob_busy.add(name)
             try:
-                v = self.eval(self.mod.consts[name], {})
+                fill = self._module_fill_statements(name)
+                if fill is None:
+                    v = self.eval(self.mod.consts[name], {})
+                else:
+                    # a module-level table that is filled by further module-level statements (`T.update(..)`, `T[k] = v`,
+                    # a loop): the statements are constant-folded in order (device 6: module-level constant tables)
+                    env: dict = {}
+                    asked = len(self.oracle.made)
+                    for st in fill:
+                        self.stmt(st, env)
+                    if len(self.oracle.made) != asked:
+                        raise Unknown("a module-level table is filled under a test whose outcome is not a constant")
+                    v = env[name]
                 if not _has_opaque(v):
                     return v
-            except (Unknown, _Raised):
+            except (Unknown, _Raised, _Break, _Continue, _Return, KeyError):
                 pass
             finally:
                 self._glob_busy.discard(name)
@@ -531,6 +579,51 @@ class _Interp:
             if name in m.funcs and "." not in name:
                 return _FnRef(m.funcs[name])
         return _Glob(name)
+
+    def _module_fill_statements(self, name: str) -> Optional[list]:
+        """The module-level statements that define and then fill / mutate the global `name`, in order; None when the
+        global is only ever assigned (then its last assignment is its value).  Statements that merely read it are left
+        out.  Raises Unknown for a mutation the walker does not model (`del`)."""
+        cache = self.ctx.__dict__.setdefault("_c13_fill_cache", {})
+        key = (self.modname, name)
+        if key in cache:
+            if isinstance(cache[key], Unknown):
+                raise cache[key]
+            return cache[key]
+        try:
+            cache[key] = self._module_fill_statements_uncached(name)
+        except Unknown as e:
+            cache[key] = e
+            raise
+        return cache[key]
+
+    def _module_fill_statements_uncached(self, name: str) -> Optional[list]:
+        out, mutated = [], False
+        for st in self.mod.tree.body:
+            if isinstance(st, (ast.FunctionDef, ast.AsyncFunctionDef, ast.ClassDef, ast.Import, ast.ImportFrom)):
+                continue
+            defines = (isinstance(st, ast.Assign) and any(isinstance(t, ast.Name) and t.id == name for t in st.targets)) or \
+                (isinstance(st, ast.AnnAssign) and isinstance(st.target, ast.Name) and st.target.id == name and st.value is not None)
+            if defines:
+                out.append(st)
+                continue
+            writes = False
+            for n in ast.walk(st):
+                if isinstance(n, ast.Delete) and any(isinstance(x, ast.Name) and x.id == name for t in n.targets for x in ast.walk(t)):
+                    raise Unknown("del on a module-level table")
+                if isinstance(n, ast.Call) and isinstance(n.func, ast.Attribute) and isinstance(n.func.value, ast.Name) and n.func.value.id == name and \
+                        n.func.attr in _MUTATORS:
+                    writes = True  # a mutating method of the builtin containers called on the table
+                if isinstance(n, (ast.Subscript, ast.Attribute)) and isinstance(n.ctx, ast.Store) and isinstance(n.value, ast.Name) and n.value.id == name:
+                    writes = True
+                if isinstance(n, ast.AugAssign) and isinstance(n.target, ast.Name) and n.target.id == name:
+                    writes = True
+                if isinstance(n, ast.Name) and n.id == name and isinstance(n.ctx, ast.Store) and not defines:
+                    writes = True  # rebound inside a compound statement
+            if writes:
+                mutated = True
+                out.append(st)
+        return out if mutated else None
 
     # ------------------------------------------------------------------ truth
     def truth(self, v) -> bool:
@@ -547,6 +640,8 @@ class _Interp:
                 return known
         if isinstance(v, _Seq):
             return bool(v.items)  # named assumption: the sequence holds the entries of the case analysis
+        if isinstance(v, _Len) and v.lo > 0:
+            return True
         if isinstance(v, _Str) and _str_const_len(v) > 0:
             return True  # a text with a non-empty constant segment is not empty
         if isinstance(v, _Attr):
@@ -737,6 +832,14 @@ class _Interp:
             for a, b in ((l, r), (r, l)):
                 if _opaque(b):
                     continue
+                if isinstance(a, _Seq) and a.exact and not a.items:
+                    # the empty-sequence case; the sequences under analysis are Python lists (named assumption, see
+                    # trusted base): equal to the empty list, unequal to everything else
+                    return (isinstance(b, list) and not b) == isinstance(op, ast.Eq)
+                if isinstance(a, _Seq) and a.items and isinstance(b, (list, tuple, str, bytes, dict, set, frozenset, type(None))) and len(b or ()) < len(a.items):
+                    return isinstance(op, ast.NotEq)  # a sequence with an entry is unequal to a shorter container / None
+                if isinstance(a, _Len) and isinstance(b, int) and not isinstance(b, bool) and b < a.lo:
+                    return isinstance(op, ast.NotEq)  # interval fact: length >= lo > b
                 if isinstance(a, _Str) and not _str_may_equal(a, b):
                     return isinstance(op, ast.NotEq)
                 if isinstance(a, _Val):
@@ -753,10 +856,22 @@ class _Interp:
                 if all(self._sym_cmp(ne, l, x) is True for x in r):
                     return isinstance(op, ast.NotIn)  # unequal to every member
             return NotImplemented
+        if type(op) in _CMPOPS:
+            # interval fact of a length n >= lo against a constant k: n > k and n >= k follow from the lower bound, n < k
+            # and n <= k are refuted by it; nothing else is known
+            o, n, k = type(op), l, r
+            if isinstance(r, _Len):
+                o, n, k = {ast.Lt: ast.Gt, ast.Gt: ast.Lt, ast.LtE: ast.GtE, ast.GtE: ast.LtE}[o], r, l
+            if isinstance(n, _Len) and isinstance(k, (int, float)) and not isinstance(k, bool):
+                if o is ast.Gt and n.lo > k or o is ast.GtE and n.lo >= k:
+                    return True
+                if o is ast.Lt and n.lo >= k or o is ast.LtE and n.lo > k:
+                    return False
+            return NotImplemented
         return NotImplemented
 
     def _cmp(self, op, l, r, node):
-        if isinstance(l, (_Val, _Str, _Seq)) or isinstance(r, (_Val, _Str, _Seq)):
+        if isinstance(l, (_Val, _Str, _Seq, _Len)) or isinstance(r, (_Val, _Str, _Seq, _Len)):
             known = self._sym_cmp(op, l, r)
             if known is not NotImplemented:
                 return known
@@ -1162,6 +1277,9 @@ class _Interp:
             ne = ast.NotEq()
             if any(_opaque(k) or self._sym_cmp(ne, args[0], k) is not True for k in owner):
                 return _Obj("dict." + fn.__name__, [owner] + list(args), kwargs, node)
+        if fn is len and len(args) == 1 and isinstance(args[0], _Seq) and not kwargs:
+            # length fact of the case: exactly the entries given / at least the entries given
+            return len(args[0].items) if args[0].exact else _Len(len(args[0].items))
         if fn is dict and len(args) == 1 and not kwargs and isinstance(args[0], _Seq):
             args = [list(args[0].items)]  # the mapping of the entries considered
         if fn is enumerate and args and isinstance(args[0], _Seq):
@@ -1579,6 +1697,134 @@ def _attachments(res: _Res, child) -> List[Tuple[_Obj, str, str]]:
     return out
 
 
+# ---------------------------------------------------------------------------- grammar lookups (structural)
+# The names of most grammar rules never reach a parse tree: lark names a node after the alias of the alternative, so a rule
+# all of whose alternatives carry an alias (`?value`, `http_get_client_options`, `postex_options`, `execute_options` ...)
+# can be renamed freely.  Nothing below therefore looks such a rule up by its name.  A rule is addressed by what IS
+# observable: the path of block aliases (tree names) that leads to it from the start symbol, or - for the two parts of a
+# data transform - the un-aliased rules `steps` / `termination`, whose names are the tree names DataTransformBlock.tree
+# builds.
+#
+# builder class -> where the children it collects appear in a profile, as paths of block aliases from the top level
+# (reference: the class docstrings - "`.http-{stager,get,post}.{client,server}` block" ... - and the Malleable C2 layout).
+BUILDER_PATHS = {
+    "C2Profile": [()],
+    "HttpOptionsBlock": [("http_stager", "client"), ("http_stager", "server"), ("http_get", "client"), ("http_get", "server"),
+                         ("http_post", "client"), ("http_post", "server")],
+    "HttpConfigBlock": [("http_config",)],
+    "HttpStagerBlock": [("http_stager",)],
+    "HttpGetBlock": [("http_get",)],
+    "HttpPostBlock": [("http_post",)],
+    "StageBlock": [("stage",)],
+    "StageTransformBlock": [("stage", "transform_x86"), ("stage", "transform_x64"), ("process_inject", "transform_x86"), ("process_inject", "transform_x64")],
+    "ProcessInjectBlock": [("process_inject",)],
+    "PostExBlock": [("post_ex",)],
+    "DnsBeaconBlock": [("dns_beacon",)],
+    "HttpBeaconBlock": [("http_beacon",)],
+    "ExecuteOptionsBlock": [("process_inject", "execute")],
+    "BeaconGateBlock": [("stage", "beacon_gate")],
+}
+DATA_TRANSFORM = "data_transform"  # un-aliased rule: its name is the tree name DataTransformBlock.tree builds
+
+
+def _gcache(g: Grammar) -> dict:
+    c = getattr(g, "_c13_cache", None)
+    if c is None:
+        c = g._c13_cache = {}
+    return c
+
+
+def _top_origins(g: Grammar) -> Set[str]:
+    """The rule(s) whose alternatives are the top-level statements: the body of the start symbol (the start symbol is an
+    option of the Lark.open call / lark's default and the name of the root node)."""
+    c = _gcache(g)
+    if "top" not in c:
+        start = g.options.get("start", "start")
+        out: Set[str] = set()
+        for s in (start if isinstance(start, (list, tuple)) else [start]):
+            for r in g.alternatives(s):
+                out |= g.body_origins(r)
+        c["top"] = out
+    return set(c["top"])
+
+
+def _body_of(g: Grammar, path) -> Set[str]:
+    """The rule(s) that make up the body of the block reached from the top level through the block aliases in `path`
+    (empty path: the top level itself).  Rules are found by the alias of the alternative that opens the block, never by
+    their own name."""
+    c = _gcache(g)
+    key = ("body", tuple(path))
+    if key not in c:
+        origins = _top_origins(g)
+        for alias in path:
+            nxt: Set[str] = set()
+            for o in sorted(origins):
+                for r in g.alternatives(o):
+                    if r.alias == alias and g.is_block(r):
+                        nxt |= g.body_origins(r)
+            origins = nxt
+        c[key] = origins
+    return set(c[key])
+
+
+def _origins_of(g: Grammar, cls: str) -> List[str]:
+    """Grammar rule(s) whose alternatives may appear among the children of builder class `cls`."""
+    if cls == "DataTransformBlock":
+        return [DATA_TRANSFORM]
+    out: Set[str] = set()
+    for path in BUILDER_PATHS.get(cls, ()):
+        out |= _body_of(g, path)
+    return sorted(out)
+
+
+def _part_origins(g: Grammar, part: str) -> List[str]:
+    """The rule(s) whose alternatives are the statements of a data transform's `steps` / `termination` part."""
+    out: Set[str] = set()
+    for r in g.alternatives(part):
+        out |= g.body_origins(r)
+    return sorted(out)
+
+
+def aliases_of(g: Grammar, origins) -> Dict[str, Set[int]]:
+    """alias -> set of string arities, over the non-block alternatives of the given rules."""
+    out: Dict[str, Set[int]] = {}
+    for o in origins:
+        for r in g.alternatives(o):
+            if r.alias and not g.is_block(r):
+                out.setdefault(r.alias, set()).add(g.string_arity(r))
+    return out
+
+
+def block_aliases_of(g: Grammar, origins) -> Dict[str, Set[str]]:
+    """block alias -> the rule(s) of the block's body, over the block alternatives of the given rules."""
+    out: Dict[str, Set[str]] = {}
+    for o in origins:
+        for r in g.alternatives(o):
+            if r.alias and g.is_block(r):
+                out.setdefault(r.alias, set()).update(g.body_origins(r))
+    return out
+
+
+def _alternatives_of(g: Grammar, origins) -> list:
+    return [r for o in origins for r in g.alternatives(o)]
+
+
+def _nullable(g: Grammar, origin: str) -> bool:
+    """Can rule `origin` derive the empty sequence of tokens?  (least fixpoint over the compiled rules)"""
+    c = _gcache(g)
+    if "nullable" not in c:
+        nul: Set[str] = set()
+        changed = True
+        while changed:
+            changed = False
+            for r in g.rules:
+                if r.origin not in nul and all((not s.is_term) and s.name in nul for s in r.expansion):
+                    nul.add(r.origin)
+                    changed = True
+        c["nullable"] = nul
+    return origin in c["nullable"]
+
+
 def run(ctx):
     rep = ctx.rep
     rep.explanation = (
@@ -1589,15 +1835,23 @@ def run(ctx):
         "vocabularies of the code and the reference tables (BeaconSetting and InjectExecutor members, BeaconGate field and "
         "group names, transform / recover opcode names, build selectors) with the entry's arguments kept symbolic: each "
         "entry the producer can emit is taken through the consumer and the emitted builder call is looked up, as a term, in "
-        "the grammar (alias, keyword, arity); the term in which a byte argument reaches a block must be the argument itself "
-        "or repr(argument)[2:-1] (escape-encoded) and must not be a decoding; the http-get / http-post and x86 / x64 sibling "
+        "the grammar (alias, keyword, arity; grammar rules are addressed by the block-alias path that leads to them, never by "
+        "a rule name that cannot reach the tree); the term in which a byte argument reaches a block must be the argument itself "
+        "or repr(argument)[2:-1] (escape-encoded) and must not be a decoding, nor a decoding followed by a character-wise "
+        "mapping (translate with a constant table / single-character replace) that leaves the backslash raw; the http-get / "
+        "http-post and x86 / x64 sibling "
         "settings must render every kind of entry into equal terms and as the opcode tables prescribe; add_step / "
         "add_termination attach the argument in both nullness cases as required; blocks are attached only when non-empty "
-        "(CFG dominance)."
+        "(CFG dominance); for every sequence-valued setting the case of a value without entries is followed: generation must "
+        "not raise and neither a child-less block nor a data-transform block without statements (not derivable from the "
+        "grammar) may reach the returned profile."
     )
     rep.not_decided = ["equality of the parsed-back values for all configurations", "options the generator chooses to skip",
                        "escaping of static header/parameter decorations (raw text on both sides of the round trip)",
-                       "byte arguments that reach a block through any function other than identity, repr(b)[2:-1] or a decoding (undecided, not judged)",
+                       "byte arguments that reach a block through any function other than identity, repr(b)[2:-1], a decoding, or a decoding followed by character-wise "
+                       "mappings with constant operands (undecided, not judged); of a character-wise mapping only the image of the backslash is judged",
+                       "that a data-transform block has exactly one termination statement (only the block without any statement is judged, R10)",
+                       "equality of two different encodings of the same argument in sibling settings (undecided; each is judged by R4)",
                        "interaction of several entries of one program beyond a BUILD entry followed by a step (order, repetition): "
                        "only the per-entry effect and the kind of container the lines are collected in are judged",
                        "the text rendering of the built tree (as_text / reconstructor): see C11 / C12"]
@@ -1611,7 +1865,14 @@ def run(ctx):
                         "lemma E1: for b: bytes, repr(b)[2:-1] is the escape-encoded body of the bytes literal (every byte spelled as itself or as a backslash escape; that the STRING "
                         "token builder value_to_string copes with the bare double quote / \\' a single-quoted literal can contain is the business of C11 / C12)",
                         "lemma E2: b.decode(codec) / str(b, codec) leaves backslash, quote and control bytes as raw characters (not an escape-encoding)",
+                        "lemma E3: str.translate(T) replaces a character c by T[ord(c)] when T has the integer key ord(c) (None deletes, an integer stands for that character) and keeps it "
+                        "otherwise - one-character string keys are never consulted; str.replace(a, b) with a one-character a acts on each character on its own; so the image of a backslash "
+                        "under a chain of such operations is found from the constants alone; the STRING token decoder reads \\\\, \\x5c as one backslash and a raw backslash as the start of an escape",
                         "lemma K: a dict / set or a view of one holds one entry per key, so lines collected in it lose repeated names",
+                        "BUILDER_PATHS (builder class -> block-alias paths of the blocks it fills; reference: class docstrings / Malleable C2 layout) and the tree names `steps`, `termination`, "
+                        "`data_transform` of a data transform; _SEQUENCE_SETTINGS (settings whose value is a list of entries; reference: the list-returning producers of beacon.SETTING_TO_PRETTYFUNC); "
+                        "the value of such a setting is a Python list (so the empty one equals [])",
+                        "length facts: a sequence that holds the entries of a case has length >= their number; the empty sequence has length 0",
                         "nullness / type-tag facts: a value that is not None is not `None`; a bytes / str / int value is not the object True / False and is unequal to values of unrelated builtin types"]
     g = Grammar(ctx.repo)
     r1(ctx, g)
@@ -1621,6 +1882,7 @@ def run(ctx):
     r6(ctx)
     r8(ctx)
     r9(ctx, g)
+    r10(ctx, g)
     from rules import c03
 
     c03.r6(ctx, rule="R7")
@@ -1665,7 +1927,7 @@ def _call_arg(c: ast.Call, idx: int, name: str) -> Optional[ast.AST]:
 def _check_site(ctx, g: Grammar, f, cls: str, m: str, name: str, ccls: Optional[str], node, seen: Set[str]):
     """One builder primitive `m` called on a block of class `cls` with the constant tree name `name` (attach calls: the
     child block has class `ccls`): the grammar must have that alias, with that arity / body, in the rule of the block."""
-    top = block_aliases_of(g, ["value"])
+    top = block_aliases_of(g, _top_origins(g))
     if cls == "C2Profile":
         text = f"profile.{m}({name!r})"
         if text in seen:
@@ -1676,7 +1938,7 @@ def _check_site(ctx, g: Grammar, f, cls: str, m: str, name: str, ccls: Optional[
             ctx.ob("R1", "VOCAB", f, text, ok, f"global option {name!r} " + ("is" if ok else "is NOT") + " an alternative of the OPTION terminal", node)
         elif m in ATTACH:
             ok = name in top
-            ctx.ob("R1", "GRAM", f, text, ok, f"top-level block {name!r} " + ("is" if ok else "is NOT") + " a block alias of the grammar's `value` rule", node)
+            ctx.ob("R1", "GRAM", f, text, ok, f"top-level block {name!r} " + ("is" if ok else "is NOT") + " a block alias among the grammar's top-level statements", node)
         else:
             ctx.ob("R1", "GRAM", f, text, False, f"the grammar has no top-level statement built by {m}", node)
         return
@@ -1684,9 +1946,12 @@ def _check_site(ctx, g: Grammar, f, cls: str, m: str, name: str, ccls: Optional[
     if text in seen:
         return
     seen.add(text)
-    origins = BUILDER_RULES.get(cls)
+    if cls not in BUILDER_PATHS:
+        ctx.ob("R1", "GRAM", f, text, False, f"builder class {cls} has no place in a profile (no block-alias path)", node)
+        return
+    origins = _origins_of(g, cls)
     if not origins:
-        ctx.ob("R1", "GRAM", f, text, False, f"builder class {cls} has no grammar rule mapping", node)
+        ctx.undecided("R1", "GRAM", f, text, f"the block(s) {BUILDER_PATHS[cls]} that builder class {cls} fills are not reachable through block aliases of the grammar: its rule cannot be located", node)
         return
     if m in ATTACH:
         ba = block_aliases_of(g, origins)
@@ -1694,7 +1959,7 @@ def _check_site(ctx, g: Grammar, f, cls: str, m: str, name: str, ccls: Optional[
         body_ok = True
         want = None
         if ok and ccls:
-            want = set(BUILDER_RULES.get(ccls, [])) if ccls != "DataTransformBlock" else {"data_transform"}
+            want = set(_origins_of(g, ccls))
             body_ok = not want or bool(want & ba[name])
         ctx.ob("R1", "GRAM", f, text, ok and body_ok,
                f"{cls} child block {name!r}: block alias in {origins}={ok}; child {ccls} emits alternatives of {sorted(want) if want else '?'} and the grammar body is {sorted(ba.get(name, []))}", node)
@@ -1771,7 +2036,7 @@ def r1(ctx, g: Grammar):
         cal = ctx.rs.resolve_call(f, c)
         if cal.kind == "class" and cal.fq.startswith("c2profile.") and c.keywords:
             cls = cal.fq.split(".", 1)[1]
-            origins = BUILDER_RULES.get(cls)
+            origins = _origins_of(g, cls)
             if not origins:
                 continue
             for k in c.keywords:
@@ -1787,12 +2052,15 @@ def r1(ctx, g: Grammar):
     if sel is None:
         sel = set()
         ctx.undecided("R1", "VOCAB", ptb, "build selectors", "parse_transform_binary has no string-valued selector parameter any more: the block names it emits cannot be located")
-    ba = block_aliases_of(g, ["http_get_client_options"])
+    clients = [block_aliases_of(g, _body_of(g, path)) for path in (("http_get", "client"), ("http_post", "client"))]
     for s in sorted(sel):
-        ok = s in ba and "data_transform" in ba[s]
-        ctx.ob("R1", "VOCAB", f, f"client block {s!r}", ok, f"build selector {s!r} names a data-transform block of the client options={ok}")
+        ok = all(s in ba and DATA_TRANSFORM in ba[s] for ba in clients)
+        ctx.ob("R1", "VOCAB", f, f"client block {s!r}", ok, f"build selector {s!r} names a data-transform block of the http-get and http-post client blocks={ok}")
     # step names the transform parser can emit are accepted by DataTransformBlock / the grammar
-    tr, te = aliases_of(g, ["transform_statement"]), aliases_of(g, ["termination_statement"])
+    tr, te = aliases_of(g, _part_origins(g, "steps")), aliases_of(g, _part_origins(g, "termination"))
+    if not tr or not te:
+        ctx.undecided("R1", "VOCAB", f, "step names", "the statements of the `steps` / `termination` parts of a data transform cannot be located in the grammar")
+        return
     for nme in sorted(tables.STEPS_NO_ARG):
         low = nme.lower()
         ok = (low in tr and 0 in tr[low]) or (low in te and 0 in te[low])
@@ -1835,7 +2103,10 @@ def r2(ctx, g: Grammar):
     prod = ctx.repo.func("beacon.beacon_gate_options_string")
     cd = ctx.cdefs("beacon")["cs_struct"]
     fields = [x.name for x in cd.struct("BeaconGateOptions").fields]
-    rules = {r.alias: r for r in g.alternatives("beacon_gate_options")}
+    rules = {r.alias: r for r in _alternatives_of(g, _origins_of(g, "BeaconGateBlock"))}
+    if not rules:
+        ctx.undecided("R2", "VOCAB", prod, "BeaconGate vocabulary", f"the body of the block {BUILDER_PATHS['BeaconGateBlock']} is not reachable through block aliases of the grammar: the rule of the BeaconGate options cannot be located")
+        return
     keywords = {r.keywords[0].lower(): r.keywords[0] for r in rules.values() if r.keywords}
     # group labels: constants the producer emits, plus any constant of it that names a keyword of the block up to case
     labels = {s for s in _emitted_strings(prod.node) if s not in fields}
@@ -1955,7 +2226,10 @@ def r3(ctx, g: Grammar):
                 produced.append((m, items[0]))
     f = ctx.repo.func("c2profile.C2Profile.from_beacon_config")
     fe = ctx.repo.func("c2profile.ExecuteOptionsBlock.from_execute_list")
-    rules = {r.alias: r for r in g.alternatives("execute_options")}
+    rules = {r.alias: r for r in _alternatives_of(g, _origins_of(g, "ExecuteOptionsBlock"))}
+    if not rules:
+        ctx.undecided("R3", "VOCAB", f, "executor vocabulary", f"the body of the block {BUILDER_PATHS['ExecuteOptionsBlock']} is not reachable through block aliases of the grammar: the rule of the execute options cannot be located")
+        return
     done: Set[str] = set()
     agree: List[str] = []
     agree_unknown: List[str] = []
@@ -2033,6 +2307,10 @@ _KEYED_TYPES = (dict, set, frozenset, type({}.items()), type({}.keys()), type({}
 #      ASCII other than the backslash and the delimiter) or as one of \\ \' \" \t \n \r \xNN; [2:-1] drops the two-character
 #      opener and the closing delimiter and leaves that body
 #  E2  b.decode(codec) / str(b, codec) is NOT an escape-encoding: a backslash, quote or control byte becomes that very character
+#  E3  character-wise operations with constant operands applied to a decoding act on the backslash independently of its
+#      neighbours: t.translate(T) gives T[92] if T has the integer key 92 (keys that are strings are never looked up), else the
+#      backslash; t.replace(a, b) with len(a) == 1 replaces it iff a is the backslash.  The result is an escape-encoding only
+#      if that image is a spelling the STRING token decoder reads back as one backslash (see `_backslash_image`)
 #  K   a dict / set (or a view of one) holds one entry per key: collecting lines in it collapses repeated names
 
 
@@ -2069,13 +2347,83 @@ def _arg_kind(term, arg) -> str:
         if isinstance(base, _Obj) and base.callee == "repr" and len(base.args) == 1 and base.args[0] is arg and not base.kwargs and \
                 lo == 2 and hi == -1 and step in (None, 1) and not _opaque(lo) and not _opaque(hi):
             return "escaped"
-    if isinstance(term, _Obj) and term.recv is arg and term.callee.endswith(".decode"):
+    if _is_decoding(term, arg):
         return "decoded"
-    if isinstance(term, _Obj) and term.callee == "str" and len(term.args) + len(term.kwargs) >= 2 and term.args and term.args[0] is arg:
-        return "decoded"
+    img = _backslash_image(term, arg)
+    if img is not None and img not in _BACKSLASH_SPELLINGS:
+        return "unescaped"  # E3: a backslash byte of the argument comes out raw (or is dropped / turned into something else)
     if not _depends_on(term, arg):
         return "lost"
     return "unknown:" + _show(term)[:60]
+
+
+_BACKSLASH_SPELLINGS = ("\\\\", "\\x5c", "\\x5C")  # texts the STRING token decoder turns back into one backslash byte
+_NOT_ENCODED = ("decoded", "unescaped")
+
+
+def _is_decoding(term, arg) -> bool:
+    if isinstance(term, _Obj) and term.recv is arg and term.callee.endswith(".decode"):
+        return True
+    return isinstance(term, _Obj) and term.callee == "str" and len(term.args) + len(term.kwargs) >= 2 and bool(term.args) and term.args[0] is arg
+
+
+def _backslash_image(term, arg, depth=0) -> Optional[str]:
+    """Lemma E3.  For a term that is a decoding of `arg` followed by character-wise text operations whose operands are
+    constants of the code - `.translate(T)` with a constant table, `.replace(a, b)` with a one-character a - the text that
+    a backslash byte of the argument is turned into; None when the term is not such a chain.  The operations act on every
+    character independently of its neighbours, so the image of the one character is found by applying them to it:
+    decoding gives the backslash itself (E2); `translate` replaces it by T[92] when the table has the *integer* key 92
+    (str.translate looks characters up by ordinal: a key that is a one-character string is never consulted; a value None
+    deletes the character, an integer value stands for that character) and leaves it alone otherwise; `replace` replaces
+    it when a is that character.  Only this one entry of the table is looked at - no inputs are tried."""
+    if depth > 8 or not isinstance(term, _Obj):
+        return None
+    if _is_decoding(term, arg):
+        return "\\"
+    if not isinstance(term.recv, _Obj) or term.kwargs:
+        return None
+    inner = _backslash_image(term.recv, arg, depth + 1)
+    if inner is None:
+        return None
+    meth = term.callee.rsplit(".", 1)[-1]
+    if meth == "translate" and len(term.args) == 1 and isinstance(term.args[0], dict) and not _has_opaque(term.args[0]):
+        table, out = term.args[0], []
+        for ch in inner:
+            if ord(ch) in table:
+                v = table[ord(ch)]
+                if v is None:
+                    continue
+                if isinstance(v, int) and not isinstance(v, bool) and 0 <= v < 0x110000:
+                    v = chr(v)
+                if not isinstance(v, str):
+                    return None
+                out.append(v)
+            else:
+                out.append(ch)
+        return "".join(out)
+    if meth == "replace" and len(term.args) == 2 and all(isinstance(a, str) for a in term.args) and len(term.args[0]) == 1:
+        return inner.replace(term.args[0], term.args[1])
+    return None
+
+
+def _not_encoded_reason(terms, arg) -> str:
+    imgs = sorted({repr(_backslash_image(t, a)) for t in terms for a in ([arg] if arg is not None else _val_symbols(t)) if _backslash_image(t, a) not in (None,) + _BACKSLASH_SPELLINGS})
+    if imgs:
+        return (f"decoded text whose character-wise mapping turns a backslash byte into {imgs} (lemma E3: required one of {list(_BACKSLASH_SPELLINGS)}) - the decoder of the STRING token "
+                "reads a raw backslash as the start of an escape, so the argument is not byte-exact after the round trip or the text is invalid")
+    return "decoded text, NOT escape-encoded (lemma E2) - a backslash, quote or control byte yields invalid or unfaithful profile text"
+
+
+def _val_symbols(term, depth=0) -> list:
+    """The `_Val` symbols a term is built from."""
+    if isinstance(term, _Val):
+        return [term]
+    if depth > 8 or not isinstance(term, _Obj):
+        return []
+    out = []
+    for q in list(term.args) + list(term.kwargs.values()) + [term.recv]:
+        out += _val_symbols(q, depth + 1)
+    return out
 
 
 def _client_cases(ctx) -> List[Tuple[str, str, list, object]]:
@@ -2121,13 +2469,26 @@ def _client_obs(res: _Res) -> dict:
     return out
 
 
-def _obs_signature(o: dict) -> str:
+def _abstract_encoding(v, arg, depth=0):
+    """`v` with every computed term that is made from the symbolic argument replaced by one marker: what is left is where
+    the argument goes, not by which function it is encoded."""
+    if arg is None or depth > 8:
+        return v
+    if isinstance(v, (list, tuple)):
+        return type(v)(_abstract_encoding(x, arg, depth + 1) for x in v)
+    if isinstance(v, _Obj) and not isinstance(v, _Sym) and v.cls is None and _depends_on(v, arg):
+        return _Op("some function of the argument")
+    return v
+
+
+def _obs_signature(o: dict, abstract_arg=None) -> str:
     """Structural text of an observation (no object identities, the attachment point left out): what sibling settings
-    must agree on."""
+    must agree on.  With `abstract_arg` the encoding applied to that argument is left out too."""
     if o.get("raised"):
         return f"raises {o['raised']}"
     pairs = [(n, v) for n, v in o["pairs"] if not (isinstance(v, (list, tuple)) and not v)]  # no lines: nothing is emitted
-    return _show([o["receivers"] if pairs or o["blocks"] or o["other"] else 0, pairs, [(n, v) for n, v in o["blocks"]], o["other"]])
+    sig = [o["receivers"] if pairs or o["blocks"] or o["other"] else 0, pairs, [(n, v) for n, v in o["blocks"]], o["other"]]
+    return _show(_abstract_encoding(sig, abstract_arg))
 
 
 def _pair_lines(value):
@@ -2262,10 +2623,9 @@ def r4_r5(ctx):
                 continue
             terms = [t for o in case["paths"] for t in _step_arg_terms(o, name)]
             kinds = sorted({_arg_kind(t, case["arg"]) for t in terms})
-            if "decoded" in kinds:
+            if any(k in _NOT_ENCODED for k in kinds):
                 ctx.ob("R4", "TAINT", f, f"{label} valued step {name}", False,
-                       f"the byte argument of a {name.upper()} entry reaches the data-transform block as {[_show(t)[:60] for t in terms][:2]} ({kinds}): decoded text, NOT escape-encoded "
-                       "(lemma E2) - a backslash, quote or control byte yields invalid or unfaithful profile text")
+                       f"the byte argument of a {name.upper()} entry reaches the data-transform block as {[_show(t)[:60] for t in terms][:2]} ({kinds}): " + _not_encoded_reason(terms, case["arg"]))
             elif not kinds or any(k not in ("bytes", "escaped") for k in kinds):
                 ctx.undecided("R4", "TAINT", f, f"{label} valued step {name}",
                               f"the argument of the {name} step does not reach a data-transform block in a form the rule knows ({kinds or 'no such step'}; see R5)")
@@ -2288,12 +2648,34 @@ def r4_r5(ctx):
             seen[k] = sorted(ks)
         if raised:
             ctx.ob("R4", "TAINT", f, f"{key} arguments", False, f"generation raises {sorted(set(raised))} for a prepend/append entry of the transform")
-        elif any("decoded" in ks for ks in seen.values()):
-            ctx.ob("R4", "TAINT", f, f"{key} arguments", False, f"prepend/append bytes reach set_option as {seen}: decoded text, not escape-encoded (lemma E2)")
+        elif any(k in _NOT_ENCODED for ks in seen.values() for k in ks):
+            ctx.ob("R4", "TAINT", f, f"{key} arguments", False, f"prepend/append bytes reach set_option as {seen}: " + _not_encoded_reason(
+                [x for c in an.values() for _r, opts, _p in c["paths"] for _pr, _nm, x in opts], None))
         elif any(not ks or any(x not in ("bytes", "escaped") for x in ks) for ks in seen.values()):
             ctx.undecided("R4", "TAINT", f, f"{key} arguments", f"the prepend/append arguments reach set_option as {seen}: a form the rule does not know (or not at all)")
         else:
             ctx.ob("R4", "TAINT", f, f"{key} arguments", True, f"prepend/append bytes are escape-encoded before set_option ({seen}; lemma E1)")
+    # pivot frame headers: a bytes value handed to a global option
+    for key in ("SETTING_TCP_FRAME_HEADER", "SETTING_SMB_FRAME_HEADER"):
+        if key not in _settings_enum(ctx):
+            continue
+        arg = _Val(f"bytes value of {key}", "bytes")
+        try:
+            paths = _generate(ctx, [(key, arg)])
+        except Unknown as e:
+            ctx.undecided("R4", "TAINT", f, f"{key} value", f"cannot follow from_beacon_config for the setting: {e}")
+            continue
+        raised = sorted({r.raised for r in paths if r.raised})
+        terms = [x for r in paths for ev in _prim_events(r, prims=("set_option",)) for x in [_ev_value(ev)] if _depends_on(x, arg)]
+        kinds = sorted({_arg_kind(t, arg) for t in terms})
+        if raised:
+            ctx.ob("R4", "TAINT", f, f"{key} value", False, f"generation raises {raised} for a frame-header value")
+        elif any(k in _NOT_ENCODED for k in kinds):
+            ctx.ob("R4", "TAINT", f, f"{key} value", False, f"the bytes value reaches set_option as {[_show(t)[:60] for t in terms][:2]} ({kinds}): " + _not_encoded_reason(terms, arg))
+        elif not kinds or any(k not in ("bytes", "escaped") for k in kinds):
+            ctx.undecided("R4", "TAINT", f, f"{key} value", f"the value does not reach a set_option call in a form the rule knows ({kinds or 'not emitted'})")
+        else:
+            ctx.ob("R4", "TAINT", f, f"{key} value", True, f"the bytes value reaches set_option as {kinds}: escape-encoded (the raw bytes, which the STRING builder encodes, or repr(value)[2:-1], lemma E1)")
     # ---- R5 siblings
     for label, parent in (("SETTING_C2_REQUEST", "HttpGetBlock"), ("SETTING_C2_POSTREQ", "HttpPostBlock")):
         diffs, unknown = [], []
@@ -2319,14 +2701,22 @@ def r4_r5(ctx):
     if any("unknown" in c for c in list(a.values()) + list(b.values())):
         ctx.undecided("R5", "AGREE", f, "SETTING_C2_REQUEST ~ SETTING_C2_POSTREQ", "one of the client branches could not be followed for every program entry")
     else:
-        diffs = []
+        diffs, encodings = [], []
         for case_label in a:
             sa, sb = sorted(_obs_signature(o) for o in a[case_label]["paths"]), sorted(_obs_signature(o) for o in b[case_label]["paths"])
             if sa != sb:
-                diffs.append(f"{case_label}: get={sa} post={sb}")
-        ctx.ob("R5", "AGREE", f, "SETTING_C2_REQUEST ~ SETTING_C2_POSTREQ", not diffs,
-               "the http-get and http-post client settings render every kind of program entry into the same terms (decorations, blocks, flag steps, valued-step escaping)" if not diffs else
-               "sibling settings differ: " + "; ".join(diffs)[:500])
+                # the same statements with the argument in the same places, encoded by two different functions: whether
+                # each of them is an escape-encoding is R4's question - equality of two encodings is not decided here
+                ta = sorted(_obs_signature(o, a[case_label]["arg"]) for o in a[case_label]["paths"])
+                tb = sorted(_obs_signature(o, b[case_label]["arg"]) for o in b[case_label]["paths"])
+                (encodings if ta == tb else diffs).append(f"{case_label}: get={sa} post={sb}")
+        if not diffs and encodings:
+            ctx.undecided("R5", "AGREE", f, "SETTING_C2_REQUEST ~ SETTING_C2_POSTREQ",
+                          "the two client settings emit the same statements but encode the entry's argument by different functions (judged one by one in R4): " + "; ".join(encodings)[:400])
+        else:
+            ctx.ob("R5", "AGREE", f, "SETTING_C2_REQUEST ~ SETTING_C2_POSTREQ", not diffs,
+                   "the http-get and http-post client settings render every kind of program entry into the same terms (decorations, blocks, flag steps, valued-step escaping)" if not diffs else
+                   "sibling settings differ: " + "; ".join(diffs)[:500])
     x86, x64 = pi["SETTING_PROCINJ_TRANSFORM_X86"], pi["SETTING_PROCINJ_TRANSFORM_X64"]
     if any("unknown" in c for c in list(x86.values()) + list(x64.values())):
         ctx.undecided("R5", "AGREE", f, "PROCINJ_TRANSFORM_X86 ~ X64", "one of the process-inject transform settings could not be followed")
@@ -2371,9 +2761,10 @@ def r4_r5(ctx):
 
 
 # ---------------------------------------------------------------------------- R6
-def _nonempty_polarity(test: ast.AST, subject: str) -> Optional[bool]:
-    """True: `test` holding means the block expression `subject` has children; False: it means it has none."""
-    want = subject + ".tree.children"
+def _nonempty_polarity(test: ast.AST, subject: str, suffix: str = ".tree.children") -> Optional[bool]:
+    """True: `test` holding means the block expression `subject` has children (suffix "": the collection `subject` has
+    elements); False: it means it has none."""
+    want = subject + suffix
     if src(test) == want:
         return True
     if isinstance(test, ast.Call) and dotted(test.func) in ("len", "bool") and len(test.args) == 1 and src(test.args[0]) == want:
@@ -2486,13 +2877,116 @@ def r6(ctx):
             names = [dotted(x) for x in disjuncts(node)]
             return all(nm is not None and nm in relevant for nm in names)
 
-        conds = [(t, node) for t, pol, node in dominating_conditions(ctx, f, c) if pol]
-        guarded = any(_truthy_guard(node) for _t, node in conds) or _guarded_nonempty(ctx, f, c, child_e)
+        dom = dominating_conditions(ctx, f, c)
+        conds = [(t, node) for t, pol, node in dom if pol]
+        # ... or a spelled-out non-emptiness test of one of those collections: len(x) > 0, x != [] ...
+        spelled = any(_nonempty_polarity(node, nm, "") == pol for _t, pol, node in dom for nm in relevant if not isinstance(node, ast.Name))
+        guarded = any(_truthy_guard(node) for _t, node in conds) or spelled or _guarded_nonempty(ctx, f, c, child_e)
         ok = ccls == "DataTransformBlock" or guarded
         nm = _call_arg(c, 0, "option")
         ctx.ob("R6", "DOM", f, f"in-loop set_config_block({src(nm) if nm is not None else ''})", ok,
-               f"in-loop attachment of {ccls}: " + ("a data transform always has its steps/termination children" if ccls == "DataTransformBlock" else
+               f"in-loop attachment of {ccls}: " + ("a data transform always has its steps/termination children (that it has statements is R10's business)" if ccls == "DataTransformBlock" else
                                                      f"guarded by {[t for t, _n in conds][-2:]}" if guarded else "not guarded against an empty child"), c)
+
+
+# ---------------------------------------------------------------------------- R10
+# settings whose (pretty-printed) value is a sequence of entries: the transform / recover programs, the process-inject
+# transforms, the execute list, the BeaconGate option strings (reference: the list-valued producers of
+# beacon.SETTING_TO_PRETTYFUNC)
+_SEQUENCE_SETTINGS = ("SETTING_C2_RECOVER", "SETTING_C2_REQUEST", "SETTING_C2_POSTREQ", "SETTING_PROCINJ_TRANSFORM_X86", "SETTING_PROCINJ_TRANSFORM_X64",
+                      "SETTING_PROCINJ_EXECUTE", "SETTING_BEACON_GATE")
+
+
+def _dt_steps(child: _Obj):
+    """The steps term a DataTransformBlock construction is given (None: no argument)."""
+    return child.kwargs.get("steps", child.args[0] if child.args else None)
+
+
+def _emitted_blocks(res: _Res) -> Tuple[list, list]:
+    """The blocks that end up in the profile a path returns: starting from the returned builder object, follow the attach
+    calls made on it (set_config_block: always; set_non_empty_config_block: when the child has children by the
+    summary of the primitives, `block_nonempty`) and the block-valued constructor keywords (ConfigBlock.init_kwargs
+    attaches them).  -> ([(parent, primitive, name, child, child has children: True / False / None)], [things not known])."""
+    root = res.ret
+    if not (isinstance(root, _Obj) and root.cls is not None):
+        raise Unknown("from_beacon_config does not return a builder object on some path (" + _show(root)[:40] + ")")
+    out, unknown = [], []
+    seen, todo = {id(root)}, [root]
+    while todo:
+        p = todo.pop(0)
+        links = [(ev.prim, _ev_name(ev), _ev_value(ev)) for ev in res.events if ev.prim in ATTACH and ev.recv is p]
+        if p.cls != "DataTransformBlock":
+            links += [("set_config_block", k, v) for k, v in p.kwargs.items() if isinstance(v, _Obj) and v.cls is not None]
+        for prim, name, child in links:
+            if not (isinstance(child, _Obj) and child.cls is not None):
+                unknown.append(f"{p.cls}.{prim}({_show(name)}) attaches {_show(child)[:40]}: not a builder object the code made")
+                continue
+            ne = res.it.block_nonempty(child)
+            if prim == "set_non_empty_config_block":
+                if ne is False:
+                    continue
+                if ne is None:
+                    unknown.append(f"{p.cls}.{prim}({_show(name)}): whether the {child.cls} has children is not known")
+                    continue
+            out.append((p, prim, name, child, ne))
+            if id(child) not in seen:
+                seen.add(id(child))
+                todo.append(child)
+    return out, unknown
+
+
+def r10(ctx, g: Grammar):
+    """Content-less case.  For every sequence-valued setting the case "the sequence has no entries" (emptiness case analysis
+    of the value; everything else about the configuration stays symbolic) is taken through from_beacon_config: generation
+    must not raise, no block without children may end up in the returned profile (blocks with no content are omitted) and
+    no data-transform block without statements may - the grammar's `termination` part cannot be empty, so such a block
+    has no text and as_text() fails."""
+    f = ctx.repo.func("c2profile.C2Profile.from_beacon_config")
+    dt_needs_statement = bool(g.alternatives(DATA_TRANSFORM)) and not _nullable(g, DATA_TRANSFORM)  # grammar fact: no empty data transform
+    n = 0
+    for key in _SEQUENCE_SETTINGS:
+        if key not in _settings_enum(ctx):
+            continue
+        n += 1
+        text = f"{key} without entries"
+        try:
+            paths = _generate(ctx, [(key, _Seq([], f"entries of {key} (none)", exact=True))])
+            if any("settings-loop" not in r.flags for r in paths):
+                raise Unknown("the settings loop of from_beacon_config was not found")
+            bad, unknown = [], []
+            for res in paths:
+                if res.raised:
+                    bad.append(f"generation raises {res.raised}")
+                    continue
+                emitted, unk = _emitted_blocks(res)
+                unknown += [u for u in unk if u not in unknown]
+                for p, prim, name, child, ne in emitted:
+                    where = f"{_show(name)} of a {p.cls}"
+                    if child.cls == "DataTransformBlock":
+                        steps = _dt_steps(child)
+                        if any(_root(ev.recv) is child for ev in res.events):
+                            unknown.append(f"the data-transform block emitted as {where} is also filled by method calls: its statements are not read off the constructor")
+                        elif steps is None or (isinstance(steps, (list, tuple)) and len(steps) == 0):
+                            if dt_needs_statement:
+                                bad.append(f"a data-transform block without statements is emitted as {where} (steps {_show(steps)}): the grammar's data transform needs a termination statement, "
+                                           "so the profile has no text (as_text() fails) - a block with no content must be omitted")
+                        elif not isinstance(steps, (list, tuple)):
+                            unknown.append(f"the steps of the data-transform block emitted as {where} are not a list the code built ({_show(steps)[:40]})")
+                    elif ne is False:
+                        bad.append(f"a {child.cls} without children is emitted as {where}: a block with no content must be omitted")
+                    elif ne is None:
+                        unknown.append(f"whether the {child.cls} emitted as {where} has children is not known")
+        except Unknown as e:
+            ctx.undecided("R10", "EXIT", f, text, f"cannot follow from_beacon_config for a configuration whose {key} has no entries: {e}")
+            continue
+        bad = sorted(set(bad))
+        if bad:
+            ctx.ob("R10", "EXIT", f, text, False, "; ".join(bad)[:600])
+        elif unknown:
+            ctx.undecided("R10", "EXIT", f, text, "cannot read what ends up in the profile: " + "; ".join(unknown)[:400])
+        else:
+            ctx.ob("R10", "EXIT", f, text, True, "generation does not raise and every block that reaches the returned profile has content (no child-less block, no data transform without statements)")
+    ctx.rep.count("sequence_settings", n, floor=5)
 
 
 # ---------------------------------------------------------------------------- R9 / R8
@@ -2572,7 +3066,10 @@ def r9(ctx, g):
     and with the arity the grammar has for that alias - a name no branch accepts is dropped silently and the block no
     longer parses."""
     f = ctx.repo.func("c2profile.DataTransformBlock.__init__")
-    tr, te = aliases_of(g, ["transform_statement"]), aliases_of(g, ["termination_statement"])
+    tr, te = aliases_of(g, _part_origins(g, "steps")), aliases_of(g, _part_origins(g, "termination"))
+    if not tr or not te:
+        ctx.undecided("R9", "VOCAB", f, "step names", "the statements of the `steps` / `termination` parts of a data transform cannot be located in the grammar")
+        return
     flags = sorted({n.lower() for n in tables.STEPS_NO_ARG} | {n.lower() for n, has in tables.RECOVER_STEPS.items() if not has})
     valued = sorted({n.lower() for n in tables.STEPS_LEN_ARG if not n.startswith("_")} | {n.lower() for n, has in tables.RECOVER_STEPS.items() if has})
     n = 0
